@@ -130,9 +130,6 @@ Proof.
   - intros H; injection H as -> ->. split; [reflexivity|apply Bool.eqb_reflx].
 Qed.
 
-Definition effect_free (eo : option err) : Prop :=
-  match eo with Some (ECas _ _) | Some EOther => True | Some (EUncertain _) => True | _ => False end.
-
 Lemma commit_cases s b e s' eo :
   commit s b e = (s', eo) ->
   (s' = s /\ eo <> None) \/
